@@ -55,6 +55,7 @@ def opIdRoundtrip (a : Json) : Json :=
 def ops : List (String × (Json → Json)) :=
   [("nvra_roundtrip", opNvraRoundtrip),
    ("compose_id_roundtrip", opIdRoundtrip),
+   ("check_nevra", fun a => exceptJson (fun r => Json.arr #[jstr r.1, jnvra r.2]) (checkNevra (getStrD a "s"))),
    ("py_int_digits", fun a => exceptJson jnat (pyIntDigits (getStrD a "s"))),
    ("parse_nvra", fun a => exceptJson jnvra (parseNvra (getStrD a "s"))),
    ("parse_nvra_enum", opNvraEnum),
